@@ -30,16 +30,16 @@ type Frag struct {
 
 // Case is one clear single-track CMAF input.
 type Case struct {
-	Kind    string // gen | real
-	Name    string
-	Codec   string // avc1 avc3 hvc1 hev1 mp4a ac-3
-	Media   string // video | audio
-	Traits  []string
-	TrackID uint32
-	Init    []byte
-	Segs    [][]byte // media segments: [styp] (moof mdat)+
-	Frags   []Frag   // all fragments in file order
-	HdrKnown bool    // slice-header lengths are ground truth
+	Kind     string // gen | real
+	Name     string
+	Codec    string // avc1 avc3 hvc1 hev1 mp4a ac-3
+	Media    string // video | audio
+	Traits   []string
+	TrackID  uint32
+	Init     []byte
+	Segs     [][]byte // media segments: [styp] (moof mdat)+
+	Frags    []Frag   // all fragments in file order
+	HdrKnown bool     // slice-header lengths are ground truth
 }
 
 // File returns init + all segments.
